@@ -13,6 +13,8 @@ Everything else (validity predicate, candidate filtering, choice of the optimum,
 """
 from pyvc.spec import *
 
+GROUP = 'strategy'   # contracts of one group use each other's contracts at call sites (pyvc/hooks.py contract_for_call)
+
 
 # --------------------------------------------------------------------------------------------------------------------
 # shared specification functions
